@@ -633,6 +633,24 @@ def run(model, tier):
     for cshort in spec['nan_branch']['classes']:
         ci = model.get_class(PREFIX + cshort)
         check_nan_branch(model, ci, res)
+    # ---- rule 1b: the catalogue is complete for `geometry`: every solver class that documents the parameter and whose
+    # constructor takes keywords has a row stating its admissible values (a row that is missing passes vacuously forever)
+    have = {PREFIX + c for row in spec['rows'] if canon_term_text(row['term'])[0] == 'geometry' for c in row['classes']}
+    n_geo = 0
+    for ci in model.solver_classes():
+        if 'geometry' not in (model.parameters_keys(ci) or []):
+            continue
+        own = ci.find_method('__init__')
+        takes_kw = own is None or own.node.args.kwarg is not None
+        if not takes_kw:
+            continue                    # geometry fixed by the class (wrapper without keywords)
+        covered = ci.fullname in have or any(m in have for m in ci.mro[1:])
+        n_geo += 1
+        if not covered:
+            raise AnalysisError("spec/guards.json has no row for the documented parameter 'geometry' of %s: add its admissible "
+                                "values (from the parameter help / messages) so that the guard is checked" % ci.fullname)
+    if n_geo < 20:
+        raise AnalysisError('only %d solver classes with a geometry parameter found (confirmed: >= 30)' % n_geo)
     # ---- rule 4: a quantity a classification test allows to be zero is not divided by unconditionally ----
     from . import c20_division
     c20_division.sedov(model, res)
